@@ -21,6 +21,16 @@ SLOTS = ("x", "y", "z")
 W_LIVE, W_FREED, W_GONE = 1, 2, 3
 
 
+def direct_method(assignment, formats, backend):
+    from tensora.compile import TensorMethod
+    from tensora.expression import parse_assignment
+    from tensora.format import parse_format
+    from tensora.problem import Problem
+
+    return TensorMethod(Problem(parse_assignment(assignment).unwrap(),
+                                {n: parse_format(f).unwrap() for n, f in formats}), backend)
+
+
 class Obj:
     def __init__(self, oid, kind, origin, addrs, image, backend):
         self.oid = oid
@@ -56,8 +66,10 @@ class Harness:
         for be in backends:
             B = BackendCompiler[be]
             self.methods[("s", be)] = tensor_method("a(i) = b(i) + c(i)", {"a": "s", "b": "s", "c": "s"}, B)
-            self.methods[("d", be)] = tensor_method("a(i) = b(i) + c(i)", {"a": "d", "b": "s", "c": "s"}, B)
-            self.methods[("0", be)] = tensor_method("a() = b(i) * c(i)", {"a": "", "b": "s", "c": "s"}, B)
+            # two methods built from a Problem directly, with the target not the first kernel parameter
+            # (only the porcelain puts it first)
+            self.methods[("d", be)] = direct_method("a(i) = b(i) + c(i)", [("b", "s"), ("c", "s"), ("a", "d")], B)
+            self.methods[("0", be)] = direct_method("a() = b(i) * c(i)", [("b", "s"), ("a", ""), ("c", "s")], B)
             self.methods[("z", be)] = tensor_method("a(i,j) = b(i,j) * 2", {"a": "sd", "b": "ss"}, B)
             self.methods[("m", be)] = tensor_method("a(i,j) = b(i,j) * 2", {"a": "sd", "b": "ds"}, B)
             self.methods[("fs", be)] = tensor_method("a(i) = b(i) * c(i)", {"a": "s", "b": "s", "c": "d"}, B)
